@@ -2,7 +2,7 @@
    All statements are about [fixed] = the current code (after commits C14-2, C15-1) and quantify over
    ALL histories of evaluations (lists of inputs, each input a list of statements). *)
 From Coq Require Import List ZArith Bool.
-From Verif Require Import C14.Model C14.Proof.
+From Verif Require Import C14.Model C14.Proof C14.Proof2.
 Import ListNotations.
 Open Scope Z_scope.
 
@@ -95,6 +95,20 @@ Theorem C14_growth_refuted_before_fix :
 Proof. exact growth_refuted_before_fix. Qed.
 Print Assumptions C14_growth_refuted_before_fix.
 
+(* commit C14-4: a redefinition `var x U = ...` whose type is not identical to the type of the previous x is a NEW
+   variable: it gets the next free slot(s), beyond every slot of the previous bind, which pointers taken earlier and
+   functions compiled earlier keep using with the previous type (before the commit an Ints slot was reused for any
+   other one-slot type: `var n int; pn := &n; var n float64 = 2.5; *pn` read the float's bits) *)
+Theorem C14_redefinition_other_type_new_slot : forall c x k cv b,
+  wf c -> x <> 0 -> bget (binds c) x = Some b -> kind_eqb (bkind b) k = false ->
+  let nb := snd (newBind c x CVar k cv) in
+  match bcls nb with
+  | CInt => bidx nb = intBindNum c /\ (bcls b = CInt -> bidx b + need (bkind b) <= bidx nb)
+  | _ => bidx nb = bindNum c /\ (bcls b = CVar \/ bcls b = CFunc -> bidx b < bidx nb)
+  end.
+Proof. exact redefinition_other_type_new_slot. Qed.
+Print Assumptions C14_redefinition_other_type_new_slot.
+
 (* ---------------- the hypotheses are satisfiable on non-trivial values ---------------- *)
 (* the same witness on the current code: runs, and `*p = 7` . `a` reads 7 after 1100 later declarations *)
 Example C14_ex_witness_after_fix :
@@ -113,4 +127,13 @@ Example C14_ex_boxed :
   let st := runHistory fixed state0 (witness13 ++ [decls1100]) in
   lookupCI (scomp st) (3 + 1022) = (0, 1023) /\ lookupCI (scomp st) (3 + 1023) = (1, 1) /\
   intBindNum (scomp st) = 1024 /\ intBindMax (scomp st) = 1024.
+Proof. vm_compute. auto. Qed.
+
+(* `var a int = 3` . `p := &a` . `var a float64 = 5` . `*p` = 3, a = 5, the new a is Ints slot 1; with the SAME type
+   slot 0 is reused and the pointer follows the redefined variable (REPL semantics, known finding C14-K1) *)
+Example C14_ex_redefinition :
+  snd (evalInput fixed (runHistory fixed state0 redef_witness) [SRead (EDeref (EV 2))]) = Some (VZ 3) /\
+  snd (evalInput fixed (runHistory fixed state0 redef_witness) [SRead (EV 1)]) = Some (VZ 5) /\
+  lookupCI (scomp (runHistory fixed state0 redef_witness)) 1 = (0, 1) /\
+  snd (evalInput fixed (runHistory fixed state0 redef_same) [SRead (EDeref (EV 2))]) = Some (VZ 5).
 Proof. vm_compute. auto. Qed.
